@@ -1,6 +1,6 @@
 (* C18 - the MATLAB runtime header converts values without loss (value part; handles: see C11's gateway model). *)
 From Coq Require Import List Bool ZArith.
-From Wrap Require Import Runtime.Mx Runtime.MxProofs.
+From Wrap Require Import Runtime.Mx Runtime.MxProofs Runtime.Gateway Runtime.GatewayProofs.
 Import ListNotations.
 Open Scope Z_scope.
 
@@ -59,3 +59,15 @@ Print Assumptions C18_err_vector.
 Theorem C18_err_matrix : forall a, mx_class a <> CDouble -> unwrap_matrix a = MErr 5.
 Proof. exact err_matrix. Qed.
 Print Assumptions C18_err_matrix.
+
+(* handles: a proxy received for a C++ object designates that object at every inheritance level ... *)
+Theorem C18_handle_same_object : forall classes h m cls o, protocol classes ginit (h ++ [Receive m cls o]) = true ->
+  exists l, In (m, l) (g_mobjs (run classes (h ++ [Receive m cls o]))) /\ l <> [] /\
+    forall a, In a l -> exists c, In c (g_cells (run classes (h ++ [Receive m cls o]))) /\ c_addr c = a /\ c_obj c = o.
+Proof. exact receive_same_object. Qed.
+Print Assumptions C18_handle_same_object.
+(* ... and the object is alive exactly as long as some proxy holds a cell for it *)
+Theorem C18_alive_iff_handle : forall classes h o, protocol classes ginit h = true ->
+  (alive (run classes h) o = true <-> held (run classes h) o).
+Proof. exact alive_iff_held. Qed.
+Print Assumptions C18_alive_iff_handle.
